@@ -80,7 +80,11 @@ def run (caseToks impl : List String) : String :=
       let mf := observe (newFilter hs policy d keys) hs.length q
       let mp := observe (newPre id hs policy d keys) hs.length q
       let innerKind := kind.startsWith "in."
-      let agree := if innerKind then innerOk mf fObs && innerOk mp pObs else fObs == mf && pObs == mp
+      -- criteria produced by the real router code (kinds q / in.*) must be what the model's `mkCriteria` builds
+      let critOk := match q with
+        | .crit c => kind == "raw" || mkCriteria c == c
+        | _ => true
+      let agree := critOk && (if innerKind then innerOk mf fObs && innerOk mp pObs else fObs == mf && pObs == mp)
       -- kind q: criteria built by the real router code from a map (the expectation reads them as a set of pairs)
       let wellFormed := kind == "q"
       let spec :=
